@@ -1,0 +1,42 @@
+//go:build verif
+
+package type3
+
+// Observation hooks for the model-based verification harness (build tag
+// "verif"). They only expose values that are otherwise private; they add no
+// behaviour and are not compiled without the tag.
+
+// VerifSnapshot returns copies of the attester's per-client maps.
+func (s *ClientState) VerifSnapshot() (clientIndices, originIndices map[string]string) {
+	clientIndices = make(map[string]string, len(s.clientIndices))
+	for k, v := range s.clientIndices {
+		clientIndices[k] = v
+	}
+	originIndices = make(map[string]string, len(s.originIndices))
+	for k, v := range s.originIndices {
+		originIndices[k] = v
+	}
+	return clientIndices, originIndices
+}
+
+// VerifNewInnerTokenRequest builds an InnerTokenRequest from its fields.
+func VerifNewInnerTokenRequest(tokenKeyID uint8, blindedMsg, paddedOrigin []byte) *InnerTokenRequest {
+	return &InnerTokenRequest{tokenKeyId: tokenKeyID, blindedMsg: blindedMsg, paddedOrigin: paddedOrigin}
+}
+
+// VerifFields returns the fields of an InnerTokenRequest.
+func (r *InnerTokenRequest) VerifFields() (tokenKeyID uint8, blindedMsg, paddedOrigin []byte) {
+	return r.tokenKeyId, r.blindedMsg, r.paddedOrigin
+}
+
+// VerifFields returns the fields of an EncapKey.
+func (k EncapKey) VerifFields() (id uint8, kemID, kdfID, aeadID uint16, publicKey []byte) {
+	return k.id, uint16(k.suite.KEM.ID()), uint16(k.suite.KDF.ID()), uint16(k.suite.AEAD.ID()),
+		k.suite.KEM.SerializePublicKey(k.publicKey)
+}
+
+// VerifPadOriginName exposes padOriginName.
+func VerifPadOriginName(originName string) []byte { return padOriginName(originName) }
+
+// VerifUnpadOriginName exposes unpadOriginName.
+func VerifUnpadOriginName(padded []byte) string { return unpadOriginName(padded) }
